@@ -389,7 +389,7 @@ func genRandomLogs(o *kit.Out, r *kit.Rand, thorough bool) {
 func genSearch(o *kit.Out, r *kit.Rand, thorough bool) {
 	pm := payloadOf(0, 0, false, nil)
 	pm2 := payloadOf(1_700_000_000, 1, true, []byte("x"))
-	depth := 5
+	depth := 4
 	if thorough {
 		depth = 7
 	}
@@ -429,7 +429,7 @@ func genSearch(o *kit.Out, r *kit.Rand, thorough bool) {
 			targets = append(targets, 3)
 		}
 		for _, start := range []int{0, 1} {
-			if start == 1 && !thorough && len(sq) > 4 {
+			if start == 1 && !thorough && len(sq) > 3 {
 				continue
 			}
 			for _, mode := range []int{0, 2} {
@@ -443,7 +443,7 @@ func genSearch(o *kit.Out, r *kit.Rand, thorough bool) {
 		}
 	}
 	// random larger layouts: automatic rotation by head size, pruning by total size, explicit rotations
-	n := 150
+	n := 120
 	if thorough {
 		n = 1500
 	}
